@@ -19,7 +19,7 @@ pub struct ProgCase {
     pub perm: Vec<u8>,
 }
 
-fn gcase(typed: bool) -> BoxedStrategy<ProgCase> {
+pub fn gcase(typed: bool) -> BoxedStrategy<ProgCase> {
     (gprogram(typed), proptest::collection::vec(any::<u8>(), 0..=12))
         .prop_map(move |(program, perm)| ProgCase { program, typed, perm })
         .boxed()
@@ -126,7 +126,7 @@ fn judge<I: Inst + ParseInst>(c: &ProgCase, st: &mut Stats) -> Result<(), String
     Ok(())
 }
 
-fn o_case(c: &ProgCase, st: &mut Stats) -> Result<(), String> {
+pub fn o_case(c: &ProgCase, st: &mut Stats) -> Result<(), String> {
     if c.typed {
         judge::<ITyped>(c, st)
     } else {
